@@ -168,6 +168,37 @@ pub fn run(ctx: &mut Ctx) {
         }
     });
 
+    // content that starts like a BOM but is none (EF x, EF BB x, FF x, FE x ...), delivered in tiny chunks
+    const PREFIXES: &[&[u8]] = &[&[0xEF], &[0xEF, 0xBB], &[0xEF, 0xBB, 0x41], &[0xEF, 0x41], &[0xFF], &[0xFE], &[0xFF, 0x41], &[0xFE, 0x41], &[0xFF, 0xFF], &[0xFE, 0xFE], &[0xEF, 0xBB, 0xBF, 0xEF], &[0xBB, 0xBF], &[0xEF, 0xBF], &[]];
+    let bodies: Vec<Vec<u8>> = vec![
+        b"osu file format v9\n\n[General]\nMode: 2\n\n[Metadata]\nTitle: t\n".to_vec(),
+        b"\n\nosu file format v7\n[Difficulty]\nCircleSize:3\n".to_vec(),
+        b"[HitObjects]\n100,100,1000,1,0\n".to_vec(),
+        b"".to_vec(),
+        b"x".to_vec(),
+        encode_text("osu file format v12\n[Metadata]\nArtist:\u{4e0a}\n", Enc::Utf16Le)[2..].to_vec(),
+    ];
+    let per = 24u64; // native chunk sizes 1..12, BufReader capacities 1..12
+    ctx.enumerate("BOM-like prefixes x small bodies x chunk sizes / capacities 1..12", PREFIXES.len() as u64 * bodies.len() as u64 * per, |i, st| {
+        let k = (i % per) as usize;
+        let body = &bodies[((i / per) % bodies.len() as u64) as usize];
+        let prefix = PREFIXES[(i / per / bodies.len() as u64) as usize];
+        let mut bytes = prefix.to_vec();
+        bytes.extend_from_slice(body);
+        let d = if k < 12 { Delivery::Native(Schedule::fixed(k + 1)) } else { Delivery::Buffered(k - 11, Schedule::fixed(5)) };
+        st.eval();
+        let reference = rosu_map::from_bytes::<Beatmap>(&bytes).map_err(|e| Fail::new(format!("from_bytes error {e}"), "osu", bytes.clone()))?;
+        match check_one(&bytes, &reference, &d) {
+            Ok(got) => {
+                if got.chunks >= 2 {
+                    st.nontrivial_distinct();
+                }
+                Ok(())
+            }
+            Err(m) => Err(Fail::new(m, "osu", bytes)),
+        }
+    });
+
     let cases = ctx.tier.pick(300_000u64, 3_000_000u64);
     ctx.pbt("c08-random", cases, 2600, |t, st| {
         let text: String = match t.weighted(&[5, 3, 2]) {
@@ -182,6 +213,18 @@ pub fn run(ctx: &mut Ctx) {
         let mut bytes = encode_text(&text, enc);
         if t.chance(10) {
             bytes.push(t.byte()); // odd tail byte
+        }
+        if t.chance(12) {
+            // disturb the first bytes: BOM-like prefixes that are no BOM, half BOMs
+            let n = 1 + t.below(3);
+            for j in 0..n.min(bytes.len()) {
+                if t.chance(60) {
+                    bytes[j] = *t.pick(&[0xEFu8, 0xBB, 0xBF, 0xFF, 0xFE, 0x00, b'o', b'[']);
+                }
+            }
+            if t.chance(40) {
+                bytes.insert(0, *t.pick(&[0xEFu8, 0xFF, 0xFE, 0xBB]));
+            }
         }
         let d = gen_delivery(t);
         st.eval();
@@ -242,6 +285,18 @@ fn replay_tape(tape: &[u8]) -> Result<Option<String>, Fail> {
     let mut bytes = encode_text(&text, enc);
     if t.chance(10) {
         bytes.push(t.byte());
+    }
+    if t.chance(12) {
+        // disturb the first bytes: BOM-like prefixes that are no BOM, half BOMs
+        let n = 1 + t.below(3);
+        for j in 0..n.min(bytes.len()) {
+            if t.chance(60) {
+                bytes[j] = *t.pick(&[0xEFu8, 0xBB, 0xBF, 0xFF, 0xFE, 0x00, b'o', b'[']);
+            }
+        }
+        if t.chance(40) {
+            bytes.insert(0, *t.pick(&[0xEFu8, 0xFF, 0xFE, 0xBB]));
+        }
     }
     let d = gen_delivery(&mut t);
     let reference = rosu_map::from_bytes::<Beatmap>(&bytes).map_err(|e| Fail::new(format!("from_bytes error {e}"), "osu", bytes.clone()))?;
